@@ -271,8 +271,9 @@ type c05Strs struct {
 }
 
 type c05Field struct {
-	K string `json:"k"`
-	V string `json:"v"`
+	K   string `json:"k"`
+	V   string `json:"v"`
+	Num bool   `json:"num,omitempty"` // the member is a JSON number (gjson's String() of it is its text)
 }
 
 type c05Token struct {
@@ -774,7 +775,12 @@ func (e *c05Env) gen(r *vf.Rand) c05Case {
 	for _, k := range []string{"sub", "client_id", "preferred_username"} {
 		p := c05If(k == idf, 93, 40)
 		if r.Chance(p) {
-			t.Fields = append(t.Fields, c05Field{K: k, V: vf.Pick(r, c05Subs) + c05If(k == "sub", "", "-"+k[:2])})
+			f := c05Field{K: k, V: vf.Pick(r, c05Subs) + c05If(k == "sub", "", "-"+k[:2])}
+			if k != "sub" && r.Chance(10) {
+				f = c05Field{K: k, V: fmt.Sprint(r.Range(1, 99999)), Num: true} // a numeric id member
+			}
+
+			t.Fields = append(t.Fields, f)
 		}
 	}
 
@@ -1096,7 +1102,11 @@ func (t *c05Token) payload(now int64) []byte {
 			continue
 		}
 
-		put(f.K, f.V)
+		if f.Num {
+			put(f.K, json.RawMessage(f.V))
+		} else {
+			put(f.K, f.V)
+		}
 	}
 
 	if t.BadClaim == "sub" {
@@ -2137,6 +2147,34 @@ func c05Corpus() []c05Case {
 			c.Tok.Aud = c05Strs{Form: "str", Vals: []string{"web", "", "api"}}
 		}),
 		with(func(c *c05Case) { c.Cred = "none"; c.Tok = nil }),
+		// unverified metadata document without issuer, no issuers configured: nothing but "" is trusted
+		with(func(c *c05Case) {
+			c.Metadata, c.MdID, c.MdIssuer, c.Proto.Issuers = "unverified", 424242, "", nil
+			evil := "https://evil.example"
+			c.Tok.Iss = &evil
+		}),
+		with(func(c *c05Case) {
+			c.Metadata, c.MdID, c.MdIssuer, c.Proto.Issuers = "unverified", 424243, "", nil
+			c.Tok.Iss = nil
+		}),
+		// near misses of the configured values
+		with(func(c *c05Case) {
+			c.Proto.Audience = []string{"api"}
+			c.Tok.Aud = c05Strs{Form: "arr", Vals: []string{"API", "api ", "ap"}}
+		}),
+		with(func(c *c05Case) { iss := c05Issuers[0] + "/"; c.Tok.Iss = &iss }),
+		with(func(c *c05Case) {
+			c.Proto.Scopes = &c05Matcher{Form: "exact", Values: []string{"read"}}
+			c.Tok.Scope = c05Strs{Form: "arr", Vals: []string{"Read", "read ", "rea"}}
+		}),
+		with(func(c *c05Case) {
+			c.Proto.Scopes = &c05Matcher{Form: "wildcard", Values: []string{"admin"}}
+			c.Tok.Scope = c05Strs{Form: "arr", Vals: []string{"adm*", "*n"}}
+		}),
+		// x5c chains: a foreign root shipped in the chain does not make it valid, a needed intermediate does
+		with(func(c *c05Case) { c.Keys[0].Cert = "otherca-root" }),
+		with(func(c *c05Case) { c.Keys[0].Cert = "ok-int" }),
+		with(func(c *c05Case) { c.Keys[0].Cert = "int-missing" }),
 	}
 }
 
@@ -2376,6 +2414,10 @@ func (e *c05Env) genHist(r *vf.Rand) c05Hist {
 
 		if r.Chance(7) {
 			tok.Exp = c05Date{Kind: "rel", V: -int64(r.Range(100, 900))}
+		}
+
+		if r.Chance(3) {
+			tok.Iss = nil // with a templated url: {{ .TokenIssuer }} renders to "<no value>"
 		}
 
 		kid := vf.Pick(r, []string{"k1", "k1", "k2", "k3"})
